@@ -36,6 +36,9 @@ func (c *ocodeClient) Emit(line string) error {
 	log.Printf("debug: [ocode_client] emit %s\n", line)
 	ocode, err := parseLineToOcode(line)
 	if err != nil {
+		// Callers in pass1 do not check the result; make sure a statement that cannot
+		// be represented as an ocode never disappears without an error-level message.
+		log.Printf("error: [ocode_client] cannot emit %q: %v", line, err)
 		return err
 	}
 	c.Ocodes = append(c.Ocodes, ocode)
